@@ -39,7 +39,9 @@ Parts     tag_strings   every string of <= L tokens over the 19-token syntax alp
                         <= 2 never exceeds 4; degree 3 tends to 8); output size linear.
 Oracle    outcome in {returns, TemplateSyntaxError}; any other exception class is a violation
           identified by its call site (class @ innermost django_components frame); no answer
-          within 2 s (tag_strings / templates / mutations) is a hang; len(normalized) <=
+          within 2 s (tag_strings / templates / mutations / deep_nesting), at least half of it CPU
+          time of the worker (the deep inputs cost up to 0.1 s CPU, so a machine oversubscribed
+          20x would otherwise fake hangs), is a hang; len(normalized) <=
           len(text) and the number of AST nodes <= len(text) + 1 (memory clause).
 
 Agnostic / excluded corners
@@ -58,6 +60,7 @@ from __future__ import annotations
 import os
 import signal
 import sys
+import time
 from collections import Counter
 from itertools import product
 
@@ -92,9 +95,24 @@ class _Hang(BaseException):
 
 
 _hang_site = [""]
+_alarm = {"cpu0": 0.0, "wall0": 0.0, "limit": HANG_SECONDS}
+STARVED_WALL_FACTOR = 15
+
+
+def _arm(seconds: float):
+    _alarm.update(cpu0=time.process_time(), wall0=time.monotonic(), limit=seconds)
+    signal.signal(signal.SIGALRM, _on_alarm)
+    signal.setitimer(signal.ITIMER_REAL, seconds)
 
 
 def _on_alarm(signum, frame):
+    # A worker that was starved by an overloaded machine is not hanging: the limit fires only once the worker
+    # itself has burnt at least half of it as CPU time; the wall clock stays the backstop for a blocked call.
+    cpu = time.process_time() - _alarm["cpu0"]
+    wall = time.monotonic() - _alarm["wall0"]
+    if cpu < 0.5 * _alarm["limit"] and wall < STARVED_WALL_FACTOR * _alarm["limit"]:
+        signal.setitimer(signal.ITIMER_REAL, 0.5 * _alarm["limit"])
+        return
     f = frame
     site = ""
     while f is not None:
@@ -231,8 +249,7 @@ def guarded(kind: str, arg: str, seconds: float = HANG_SECONDS):
     """-> (outcome, detail, by_library)  outcome in ok | TSE | crash | hang | stock"""
     from django.template.exceptions import TemplateSyntaxError
 
-    signal.signal(signal.SIGALRM, _on_alarm)
-    signal.setitimer(signal.ITIMER_REAL, seconds)
+    _arm(seconds)
     _phase[0] = "parse"
     try:
         r = seam_parse_tag(arg) if kind == "P" else seam_template(arg)
@@ -534,8 +551,7 @@ def _worker_mut(w, W, payload):
         full = "component 'c' " + text
         agg.extra["rt:states"] += 1
         agg.extra["rt:transitions"] += 2
-        signal.signal(signal.SIGALRM, _on_alarm)
-        signal.setitimer(signal.ITIMER_REAL, HANG_SECONDS)
+        _arm(HANG_SECONDS)
         try:
             status, problem = roundtrip_problem(full)
         except _Hang:
@@ -692,8 +708,7 @@ def _worker_deep(w, W, payload):
                 if levels > DEFAULT_NESTING_LIMIT:
                     agg.extra["deep:accepted_beyond_200_levels"] += 1
                 agg.extra["deep:transitions"] += 2
-                signal.signal(signal.SIGALRM, _on_alarm)
-                signal.setitimer(signal.ITIMER_REAL, HANG_SECONDS)
+                _arm(HANG_SECONDS)
                 try:
                     _status, problem = roundtrip_problem(arg)
                 except _Hang:
@@ -746,8 +761,7 @@ def count_steps(kind: str, arg: str):
     def glob(frame, event, a):
         return local if _is_traced(frame.f_code.co_filename) else None
 
-    signal.signal(signal.SIGALRM, _on_alarm)
-    signal.setitimer(signal.ITIMER_REAL, 20.0)
+    _arm(20.0)
     sys.settrace(glob)
     try:
         if kind == "P":
@@ -908,11 +922,11 @@ def run(ctx):
         "ENUM: every string over the syntax alphabet up to the bound is parsed through parse_tag+compile and through Template() "
         "for 7 tag heads, every template-alphabet string through Template(); outcome must be return or TemplateSyntaxError. "
         "non-trivial = inputs that reach django-components code and are rejected there or produce a structured value "
-        "(list/dict/spread); complexity: families whose k=128 member executes more than 5000 traced lines"
+        "(list/dict/spread); deep_nesting: full product of nesting-unit sequences x innermost fragments x attribute prefixes x "
+        "depths around the nesting limit and Python's recursion limit, every case reaches django-components code "
+        "(accepted and compiled, or rejected there); complexity: families whose k=128 member executes more than 5000 traced lines"
     )
     # ---- strings
-    import time
-
     t0 = time.time()
     agg = par.run_sharded(_worker_strings, {"L_tag": L_tag, "L_tpl": L_tpl})
     print(f"C12: strings done in {time.time() - t0:.1f} s", flush=True)
@@ -992,7 +1006,8 @@ def run(ctx):
                 bound={"k": list(KS), "ratio_limit": RATIO, "step_floor": STEP_FLOOR, "families": nfam},
                 samples=[worst] if worst else None)
     ev.assumptions = [
-        "hang = no answer within 2 s (20 s under tracing); time is never compared otherwise - growth is measured in executed lines",
+        "hang = no answer within 2 s (20 s under tracing) of which >= half is CPU time of the worker (a starved worker on an overloaded "
+        "machine is re-armed, wall-clock backstop 15 x the limit); time is never compared otherwise - growth is measured in executed lines",
         "regex engine internals are not visible to line counting",
         "CPython 3.12 / Django 5.1 as installed; default COMPONENTS settings (multiline_tags on, default tag formatter)",
     ]
